@@ -263,6 +263,77 @@ func main() {
 			}
 		}
 	}
+	// Flush answered with a key error: the store rejects one batch of a multi-batch flush (three regions:
+	// one batch per key) with a definite key error - assertion failed, write conflict, already exists,
+	// abort - instead of applying it (one deviation). "A flush error makes the transaction fail instead of
+	// losing writes": Commit must not succeed without that batch's writes.
+	{
+		fl, w := txnh.Op{Kind: "flush"}, txnh.Op{Kind: "flushwait"}
+		kerr := func(kind string, q *kvrpcpb.FlushRequest) *kvrpcpb.KeyError {
+			k := q.Mutations[0].Key
+			switch kind {
+			case "assertion-failed":
+				return &kvrpcpb.KeyError{AssertionFailed: &kvrpcpb.AssertionFailed{StartTs: q.StartTs, Key: k, Assertion: kvrpcpb.Assertion_NotExist, ExistingStartTs: 1, ExistingCommitTs: 2}}
+			case "write-conflict":
+				return &kvrpcpb.KeyError{Conflict: &kvrpcpb.WriteConflict{StartTs: q.StartTs, ConflictTs: q.StartTs + 1, ConflictCommitTs: q.StartTs + 2, Key: k, Primary: q.PrimaryKey}}
+			case "already-exists":
+				return &kvrpcpb.KeyError{AlreadyExist: &kvrpcpb.AlreadyExist{Key: k}}
+			}
+			return &kvrpcpb.KeyError{Abort: "injected abort"}
+		}
+		eprogs := []struct {
+			name string
+			ops  []txnh.Op
+		}{
+			{"set(a);set(b);set(c);flush;wait", []txnh.Op{op("set", "a"), op("set", "b"), op("set", "c"), fl, w}},
+			{"set(a);set(b);set(c)", []txnh.Op{op("set", "a"), op("set", "b"), op("set", "c")}},
+			{"set(a);flush;wait;set(b);set(c);flush;wait", []txnh.Op{op("set", "a"), fl, w, op("set", "b"), op("set", "c"), fl, w}},
+		}
+		lo := layouts[2]
+		for _, ep := range eprogs {
+			for _, end := range []string{"commit", "rollback"} {
+				ep, end := ep, end
+				pops := append(append([]txnh.Op{}, ep.ops...), txnh.Op{Kind: end})
+				name := fmt.Sprintf("unistore/%s/pipelined+flush-key-error/%s;%s", lo.Name, ep.name, end)
+				mk := func() *txnh.TxnScenario {
+					sc := &txnh.TxnScenario{ID: name, NewBackend: func() txnh.Backend { return uni.New(lo.Splits) }, Keys: keys,
+						Progs: [][]txnh.Program{{{Mode: txnh.Mode{Pipelined: true}, Ops: pops}}}}
+					sc.SetupFn = func(s *txnh.TxnScenario) { common.SeedKey(s, "b", "base") }
+					sc.MenuFn = func(s *txnh.TxnScenario, e *sched.Event) []sched.Dev {
+						req, _ := e.Payload.(*tikvrpc.Request)
+						if e.Actor != 0 || e.Kind != sched.KRPC || req == nil || req.Type != tikvrpc.CmdFlush {
+							return nil
+						}
+						var ds []sched.Dev
+						for _, kind := range []string{"assertion-failed", "write-conflict", "already-exists", "abort"} {
+							kind := kind
+							ds = append(ds, sched.Dev{Name: "answer-" + kind, Kind: txnh.DevAnswer, Arg: func(r *tikvrpc.Request) *tikvrpc.Response {
+								return &tikvrpc.Response{Resp: &kvrpcpb.FlushResponse{Errors: []*kvrpcpb.KeyError{kerr(kind, r.Flush())}}}
+							}})
+						}
+						return ds
+					}
+					sc.CheckFn = check
+					return sc
+				}
+				specs[name] = mk
+				jobs = append(jobs, sched.Job{Name: name, Run: func(dl time.Time) sched.Report {
+					sc := mk()
+					x := &sched.Explorer{Sc: sc, B: sched.Bounds{P: 0, F: 1, Horizon: 400, EarlyTimers: false, Deadline: dl}}
+					x.Outcome = func(e *sched.Exec) string {
+						dev := ""
+						for _, r := range sc.W.Log() {
+							if r.Dev != 0 {
+								dev += " " + r.Label
+							}
+						}
+						return sc.H.Txns[0].Outcome + ":" + sc.H.Txns[0].CommitErr + dev
+					}
+					return x.Explore(false)
+				}})
+			}
+		}
+	}
 	if common.HandleReplay(run, jobs, func(name string) sched.Scenario {
 		if mk, ok := specs[name]; ok {
 			return mk()
@@ -277,6 +348,7 @@ func main() {
 		Rule: "every program of <= depth steps from {set a/b/c, delete b, flush, flush+wait, get b, batch-get a,b,c} with at least one write, ending in commit or rollback, of one pipelined transaction over unistore on three layouts (flushed keys on region borders); each call is a scheduling point, so a running flush completes before or after the following calls (<= P preemptions), thorough: one flush RPC lost / its answer lost. " +
 			"Resolver family: 4 programs x 3 layouts x {commit, rollback} with one resolver event (clock past the TTL, another client reads all keys and rolls the flushed locks back through the primary) at every decision point at which a lock exists. " +
 			"Split-before-read family: 3 programs that flush and then read several keys at once, 2 layouts, a region split at b or c injected right before any read RPC of the transaction is delivered. " +
+			"Flush-key-error family: 3 programs over three regions (one flush batch per key), the store answers any one Flush batch with a key error (assertion failed, write conflict, already exists, abort). " +
 			"Oracle: every read returns the latest program-order write (else the snapshot value); every buffered mutation reaches the store in exactly one Flush request per generation, generations strictly increase and at most one flush generation is in flight; a flush failure makes commit fail; after commit/rollback and drain every key the transaction flushed has the primary's outcome and no lock of it is left. distinct_nontrivial = distinct (outcome, flush count, read results) classes",
 		Assumptions: []string{
 			"unistore is the store (the in-repo mock implements neither Flush nor BufferBatchGet); flush and resolve-lock concurrency are set to 1",
